@@ -165,6 +165,14 @@ Definition dict_items (v : val) : option (list val) :=
   | _ => None
   end.
 
+(* a set: VObj "set" [("elems", VList elements)]; only membership is given a meaning *)
+Definition mk_set (elems : list val) : val := VObj "set" [("elems", VList elems)].
+Definition set_elems (v : val) : option (list val) :=
+  match v with
+  | VObj cls [(f, VList elems)] => if String.eqb cls "set" && String.eqb f "elems" then Some elems else None
+  | _ => None
+  end.
+
 Definition py_binop (op : binop) (a b : val) : res val :=
   match op, a, b with
   | Add, VStr s, VStr t => Ok (VStr (s ++ t)%list)
@@ -184,7 +192,11 @@ Definition py_compare (op : cmpop) (a b : val) : res val :=
   | CmpIn | CmpNotIn =>
     match dict_items b with
     | Some items => Ok (VBool (match op with CmpIn => dict_mem a items | _ => negb (dict_mem a items) end))
-    | None => Stuck "in / not in: only on a dict"
+    | None =>
+      match set_elems b with
+      | Some elems => Ok (VBool (match op with CmpIn => existsb (py_eq a) elems | _ => negb (existsb (py_eq a) elems) end))
+      | None => Stuck "in / not in: only on a dict or a set"
+      end
     end
   | Eq => Ok (VBool (py_eq a b))
   | NotEq => Ok (VBool (negb (py_eq a b)))
@@ -192,7 +204,15 @@ Definition py_compare (op : cmpop) (a b : val) : res val :=
     (* identity is modelled against the singleton None only *)
     if is_none a || is_none b then
       Ok (VBool (match op with Is => is_none a && is_none b | _ => negb (is_none a && is_none b) end))
-    else Stuck "is / is not between objects"
+    else
+      (* ... and against the singletons True / False: `x is False` holds for the bool False only *)
+      match a, b with
+      | VBool x, VBool y => Ok (VBool (match op with Is => Bool.eqb x y | _ => negb (Bool.eqb x y) end))
+      | VBool _, (VInt _ | VStr _ | VList _ | VTuple _ | VObj _ _)
+      | (VInt _ | VStr _ | VList _ | VTuple _ | VObj _ _), VBool _ =>
+        Ok (VBool (match op with Is => false | _ => true end))
+      | _, _ => Stuck "is / is not between objects"
+      end
   | _ =>
     match as_int a, as_int b with
     | Some x, Some y =>
@@ -322,6 +342,13 @@ Definition ctor_table (p : list string) : option (string * list string) :=
   else if path_eqb p ["TextDocument"] then
     Some ("TextDocument", ["uri"; "source"; "version"; "language_id"; "local"; "sync_kind"; "position_codec"])
   else if path_eqb p ["PositionCodec"] then Some ("PositionCodec", ["encoding"])
+  (* option classes of capabilities.py: the leading fields (gen_ast.py asserts that they are a prefix of the
+     attrs fields and that the remaining ones default to None) *)
+  else if path_eqb p ["types"; "SignatureHelpOptions"] then Some ("SignatureHelpOptions", [])
+  else if path_eqb p ["types"; "RenameOptions"] then Some ("RenameOptions", ["prepare_provider"])
+  else if path_eqb p ["types"; "ExecuteCommandOptions"] then Some ("ExecuteCommandOptions", ["commands"])
+  else if path_eqb p ["types"; "TextDocumentSyncOptions"] then
+    Some ("TextDocumentSyncOptions", ["open_close"; "change"; "will_save"; "will_save_wait_until"; "save"])
   else None.
 
 Definition py_getattr (v : val) (a : string) : res val :=
@@ -475,6 +502,9 @@ Inductive expr :=
 | EFString (parts : list expr)       (* f"..{e}.." without conversions / format specs; parts must be str *)
 | EProp (e : expr) (name : string)   (* e.name where name is a translated @property of e's class *)
 | EDict (items : list (expr * expr))                     (* {k: v, ..} *)
+| EList (items : list (bool * expr))                     (* [a, *b, ..]: true = starred *)
+| EPathAttr (x : string) (a : string)                    (* x.a where the local x aliases an object inside self *)
+| EIndexDict (x : string) (a k : string)                 (* {e.k: e for e in x.a}, the values being aliases *)
 | EClosure (q : list string) (captured : list string).
     (* the function object of a nested `def`, lambda-lifted to the translated function q whose
        leading parameters are the captured variables *)
@@ -514,6 +544,9 @@ Inductive stmt :=
     (* self.field[key].m(..) as a statement, m a procedure of the item's class: the item is replaced by
        what the call leaves; KeyError when absent *)
 | SSelfItemSetAttr (field : string) (key : expr) (a : string) (value : expr)
+| SAlias (x : string) (field : string) (key : expr)      (* x = self.field[key]: x aliases the item; KeyError when absent *)
+| SPathSet (x : string) (a : string) (value : expr)      (* x.a = value, x an alias: written through self *)
+| SSelfSubSet (a f : string) (value : expr)               (* self.a.f = value: self.a an instance this object owns *)
 | SGlobalEffect (target : option string) (g : string) (args : list expr).
     (* [target =] g(..) where g is a function outside the translation that changes its arguments (objects
        with identity): recorded in self."$log" like SSelfEffect *)
@@ -563,6 +596,7 @@ Definition ctor_default (cls f : string) : option val :=
     else if String.eqb f "local" then Some (VBool true)
     else if String.eqb f "sync_kind" then Some (VGlobal ["TextDocumentSyncKind"; "Incremental"])
     else None
+  else if String.eqb cls "TextDocumentSyncOptions" || String.eqb cls "RenameOptions" then Some VNone
   else None.
 
 Definition construct (cls : string) (fields : list string) (args : list val) (kw : list (string * val))
@@ -712,6 +746,55 @@ Fixpoint sum_vals (f : val -> res val) (l : list val) (acc : Z) : res val :=
               end
     | Raise k => Raise k
     | Stuck w => Stuck w
+    end
+  end.
+
+(* ---- paths: a local may ALIAS an object that lives inside self (x = self.D[k]; an element of the list
+   x.a).  Values are immutable, so such a local holds the PATH from self to the object
+   (VObj "$path" [("steps", VList steps)]; a step is VGlobal [attribute], VTuple [dict key] or VInt
+   list index), it is read and written THROUGH self, and harness/gen_ast.py checks statically that the
+   path keeps denoting the same object while the alias is in use (the dictionary entry is not rebound,
+   the list is not replaced, the alias does not escape). *)
+Fixpoint path_get (root : val) (steps : list val) : res val :=
+  match steps with
+  | [] => Ok root
+  | VGlobal [a] :: r =>
+    match root with
+    | VObj _ fields => match get a fields with Some v => path_get v r | None => Raise AttributeError end
+    | _ => Stuck "path: attribute of a non-object"
+    end
+  | VTuple [k] :: r =>
+    match dict_items root with
+    | Some items => match dict_get k items with Some v => path_get v r | None => Raise KeyError end
+    | None => Stuck "path: item of a non-dict"
+    end
+  | VInt i :: r =>
+    match root with
+    | VList l => match nth_error l (Z.to_nat i) with Some v => path_get v r | None => Raise IndexError end
+    | _ => Stuck "path: index of a non-list"
+    end
+  | _ => Stuck "path step"
+  end.
+
+Definition mk_path (steps : list val) : val := VObj "$path" [("steps", VList steps)].
+Definition path_steps (v : val) : option (list val) :=
+  match v with
+  | VObj cls [(f, VList steps)] => if String.eqb cls "$path" && String.eqb f "steps" then Some steps else None
+  | _ => None
+  end.
+
+(* {elem.k: elem for elem in <the list at path base>}: for each key the path of the LAST element with it *)
+Fixpoint index_dict (base : list val) (k : string) (l : list val) (i : Z) (acc : list val) : res (list val) :=
+  match l with
+  | [] => Ok acc
+  | e :: r =>
+    match e with
+    | VObj _ fields =>
+      match get k fields with
+      | Some kv => index_dict base k r (i + 1) (dict_set kv (mk_path (base ++ [VInt i])%list) acc)
+      | None => Raise AttributeError
+      end
+    | _ => Stuck "index dict over non-objects"
     end
   end.
 
@@ -903,6 +986,54 @@ Fixpoint eval (env : envT) (e : expr) {struct e} : res val :=
          | Raise k => Raise k | Stuck w => Stuck w
          end
        end) parts
+  | EList items =>
+    match (fix go (es : list (bool * expr)) : res (list val) :=
+             match es with
+             | [] => Ok []
+             | (star, e) :: r =>
+               match eval env e with
+               | Ok v =>
+                 match go r with
+                 | Ok vs => if star then match v with
+                                         | VList l => Ok (l ++ vs)%list
+                                         | VTuple l => Ok (l ++ vs)%list
+                                         | _ => Stuck "* of a non-list"
+                                         end
+                            else Ok (v :: vs)
+                 | Raise k => Raise k | Stuck w => Stuck w
+                 end
+               | Raise k => Raise k | Stuck w => Stuck w
+               end
+             end) items with
+    | Ok l => Ok (VList l)
+    | Raise k => Raise k | Stuck w => Stuck w
+    end
+  | EPathAttr x a =>
+    match get x env, get "self" env with
+    | Some xv, Some sv =>
+      match path_steps xv with
+      | Some st => path_get sv (st ++ [VGlobal [a]])%list
+      | None => Stuck "attribute through a local that is not an alias"
+      end
+    | _, _ => Stuck "unbound local"
+    end
+  | EIndexDict x a k =>
+    match get x env, get "self" env with
+    | Some xv, Some sv =>
+      match path_steps xv with
+      | Some st =>
+        match path_get sv (st ++ [VGlobal [a]])%list with
+        | Ok (VList l) => match index_dict (st ++ [VGlobal [a]])%list k l 0 [] with
+                          | Ok items => Ok (mk_dict items)
+                          | Raise e => Raise e | Stuck w => Stuck w
+                          end
+        | Ok _ => Stuck "index dict over a non-list"
+        | Raise e => Raise e | Stuck w => Stuck w
+        end
+      | None => Stuck "index dict through a local that is not an alias"
+      end
+    | _, _ => Stuck "unbound local"
+    end
   | EDict items =>
     match (fix go (es : list (expr * expr)) (acc : list val) : res (list val) :=
              match es with
@@ -1039,6 +1170,58 @@ Definition set_field (a : string) (v : val) (fields : list (string * val)) : lis
      | [] => [(a, v)]
      | (b, w) :: r => if String.eqb a b then (a, v) :: r else (b, w) :: go r
      end) fields.
+
+Fixpoint list_set {A} (l : list A) (i : nat) (v : A) : list A :=
+  match l, i with
+  | [], _ => []
+  | _ :: r, O => v :: r
+  | x :: r, S j => x :: list_set r j v
+  end.
+
+Fixpoint path_set (root : val) (steps : list val) (v : val) : res val :=
+  match steps with
+  | [] => Ok v
+  | VGlobal [a] :: r =>
+    match root with
+    | VObj cls fields =>
+      match r with
+      | [] => Ok (VObj cls (set_field a v fields))          (* x.a = v: the attribute need not exist yet *)
+      | _ => match get a fields with
+             | Some old => match path_set old r v with
+                           | Ok new => Ok (VObj cls (set_field a new fields))
+                           | Raise k => Raise k | Stuck w => Stuck w
+                           end
+             | None => Raise AttributeError
+             end
+      end
+    | _ => Stuck "path: attribute of a non-object"
+    end
+  | VTuple [k] :: r =>
+    match dict_items root with
+    | Some items =>
+      match dict_get k items with
+      | Some old => match path_set old r v with
+                    | Ok new => Ok (mk_dict (dict_upd k new items))
+                    | Raise e => Raise e | Stuck w => Stuck w
+                    end
+      | None => Raise KeyError
+      end
+    | None => Stuck "path: item of a non-dict"
+    end
+  | VInt i :: r =>
+    match root with
+    | VList l =>
+      match nth_error l (Z.to_nat i) with
+      | Some old => match path_set old r v with
+                    | Ok new => Ok (VList (list_set l (Z.to_nat i) new))
+                    | Raise e => Raise e | Stuck w => Stuck w
+                    end
+      | None => Raise IndexError
+      end
+    | _ => Stuck "path: index of a non-list"
+    end
+  | _ => Stuck "path step"
+  end.
 
 (* the effect log: calls that leave the translated code (the protocol object, user callbacks) are not
    executed but recorded, in order, in the ghost attribute "$log" of self; what a recorded call returns is
@@ -1394,6 +1577,49 @@ Definition exec_atomic (env : envT) (s : stmt) : outcome :=
         | _ => OStuck "self.field[k].a = v without an instance"
         end
       | Raise k => ORaise k env | Stuck w => OStuck w
+      end
+    | Raise k => ORaise k env | Stuck w => OStuck w
+    end
+  | SAlias x field key =>
+    match eval env key with
+    | Ok kv =>
+      match get "self" env with
+      | Some sv =>
+        match path_get sv [VGlobal [field]; VTuple [kv]] with
+        | Ok _ => ONormal (set x (mk_path [VGlobal [field]; VTuple [kv]]) env)
+        | Raise k => ORaise k env | Stuck w => OStuck w
+        end
+      | None => OStuck "alias without self"
+      end
+    | Raise k => ORaise k env | Stuck w => OStuck w
+    end
+  | SPathSet x a value =>
+    match eval env value with
+    | Ok v =>
+      match get x env, get "self" env with
+      | Some xv, Some sv =>
+        match path_steps xv with
+        | Some st =>
+          match path_set sv (st ++ [VGlobal [a]])%list v with
+          | Ok sv' => ONormal (set "self" sv' env)
+          | Raise k => ORaise k env | Stuck w => OStuck w
+          end
+        | None => OStuck "attribute assignment through a local that is not an alias"
+        end
+      | _, _ => OStuck "unbound local"
+      end
+    | Raise k => ORaise k env | Stuck w => OStuck w
+    end
+  | SSelfSubSet a f value =>
+    match eval env value with
+    | Ok v =>
+      match get "self" env with
+      | Some sv =>
+        match path_set sv [VGlobal [a]; VGlobal [f]] v with
+        | Ok sv' => ONormal (set "self" sv' env)
+        | Raise k => ORaise k env | Stuck w => OStuck w
+        end
+      | None => OStuck "self.a.f = v without self"
       end
     | Raise k => ORaise k env | Stuck w => OStuck w
     end
